@@ -36,14 +36,23 @@ func finish(rep *report, start time.Time, partial bool) int {
 	var solverSecs float64
 	present := map[string]bool{}
 	var undecidedNames []string
+	excl := loadExcluded(prop)
+	rep.Excluded = nil
 	for _, r := range rep.Results {
 		present[r.O.Name] = true
 		solverSecs += r.Res.Secs
+		if reason, ok := excl[r.O.Name]; ok {
+			rep.Excluded = append(rep.Excluded, r.O.Name+" ["+r.Status+"]: "+reason)
+			continue
+		}
 		switch r.Status {
 		case "discharged":
 			claimed++
 			discharged++
 			backends[r.Res.Solver]++
+			if r.Assumed != "" {
+				rep.AssumedDis = append(rep.AssumedDis, r.O.Name+" (under "+r.Assumed+")")
+			}
 		case "cover-ok":
 			covers++
 		default:
@@ -61,6 +70,12 @@ func finish(rep *report, start time.Time, partial bool) int {
 		}
 	}
 	for _, e := range rep.Errors {
+		if i := strings.Index(e, ": "); i > 0 {
+			if reason, ok := excl["func:"+strings.ReplaceAll(e[:i], module+"/", "")]; ok {
+				rep.Excluded = append(rep.Excluded, e+" — "+reason)
+				continue
+			}
+		}
 		claimed++
 		path := writeFailure(prop, "error-"+e, "The function under contract is no longer covered by a proof:\n"+e)
 		viols = append(viols, violation{Name: e, Replay: path, Reason: e})
@@ -100,6 +115,27 @@ func finish(rep *report, start time.Time, partial bool) int {
 		return 1
 	}
 	return 0
+}
+
+// loadExcluded reads /verif/excluded.json: obligations that are undecided on the unchanged tree and
+// are therefore NOT part of the claim (they neither count as discharged nor raise alarms).
+func loadExcluded(prop string) map[string]string {
+	out := map[string]string{}
+	b, err := os.ReadFile(filepath.Join(verifRoot, "excluded.json"))
+	if err != nil {
+		return out
+	}
+	var m map[string][]struct {
+		Obligation string `json:"obligation"`
+		Reason     string `json:"reason"`
+	}
+	if json.Unmarshal(b, &m) != nil {
+		return out
+	}
+	for _, e := range m[prop] {
+		out[e.Obligation] = e.Reason
+	}
+	return out
 }
 
 func makeViolation(rep *report, r *oblResult) violation {
@@ -366,6 +402,8 @@ func writeEvidence(rep *report, claimed, discharged, covers int, knownHit map[st
 		"violations":         vs,
 		"undecided":          undecided,
 		"errors":             rep.Errors,
+		"excluded_not_claimed": rep.Excluded,
+		"discharged_under_named_assumption": rep.AssumedDis,
 		"explanation":        "Each function listed is the real function in /repo, re-loaded and re-translated on this run; obligations = postconditions, loop-invariant establishment/preservation, callee preconditions, frame conditions and implicit-panic conditions of its contract (zz_verif_contracts.go, build tag verif). `obligations` counts claimed obligations (known findings excluded and listed separately).",
 	}
 	ev := map[string]interface{}{
